@@ -305,14 +305,14 @@ def run(ctx):
 
     # ---- direction B: seeded float families
     fam = []
-    for name, cnt in (("cap", 16), ("cell", 40), ("cellunion", 16), ("rect", 30), ("loop", 10), ("meridian", 24), ("index", 40), ("polyline", 60), ("hull", 60)):
+    for name, cnt in (("cap", 16), ("cell", 40), ("cellunion", 16), ("rect", 30), ("loop", 10), ("meridian", 24), ("index", 40), ("polyline", 60), ("longline", 60), ("hull", 60)):
         for k in range(1 if q else 5):
             fam.append({"op": "c10.rand", "family": name, "seed": ctx.seed * 100 + k, "count": cnt})
 
     batch = cases + w2 + w1 + fam
     # trace files of at most ~120k events each (TLC validates 5-8k events/s and keeps the whole file in memory)
     est = {"c10.hull": 0, "c10.hullq": 0, "c10.w2": 1400, "c10.w1": 360, "cap": 1150, "cell": 215, "cellunion": 450, "rect": 160, "loop": 700, "meridian": 700, "index": 120,
-           "polyline": 25, "hull": 3}
+           "polyline": 25, "longline": 40, "hull": 3}
     group, size = [], 0
     for c in batch:
         e = est[c["op"]] if c["op"] != "c10.rand" else est[c["family"]] * c["count"]
